@@ -233,15 +233,26 @@ func (r *rig) step(s sim.Step) {
 			w.mu.Unlock()
 		}()
 		d.Logf("head mode=%d at %s", mode, w.rel(now))
-	case "idx":
+	case "idx", "idxset":
 		if r.idxBusy || !r.mayInject() {
 			d.Probe("skipped-idx")
 			break
 		}
-		i := int((s.Arg(0)%int64(w.nv) + int64(w.nv)) % int64(w.nv))
-		w.active[i] = !w.active[i]
+		if s.Op == "idx" { // toggle one validator; removing the last one empties the active set
+			i := int((s.Arg(0)%int64(w.nv) + int64(w.nv)) % int64(w.nv))
+			w.active[i] = !w.active[i]
+		} else { // set the whole active set from a mask (0 = no active validator at all)
+			for i := range w.active {
+				w.active[i] = s.Arg(0)&(1<<uint(i)) != 0
+			}
+		}
 		if len(w.activeIndices()) == 0 {
-			w.active[i] = true // keep at least one active validator
+			if w.emptySince.IsZero() {
+				w.emptySince = now
+				d.Fault("indices-change-to-empty-set")
+			}
+		} else {
+			w.emptySince = time.Time{}
 		}
 		w.invalAll = append(w.invalAll, now)
 		w.nEvents++
@@ -256,7 +267,7 @@ func (r *rig) step(s sim.Step) {
 			r.idxBusy = false
 			w.mu.Unlock()
 		}()
-		d.Logf("idx toggle %d -> %v at %s", i, w.active, w.rel(now))
+		d.Logf("%s %d -> %v at %s", s.Op, s.Arg(0), w.active, w.rel(now))
 	case "fail":
 		fam := int((s.Arg(0)%nFam + nFam) % nFam)
 		w.armFail[fam] = true
@@ -284,7 +295,7 @@ var Specs = map[string]*sim.Spec{
 			"operator/slotticker (real timers on the synctest fake clock)", "protocol/v2/blockchain/beacon.Network arithmetic (mainnet parameters)", "networkconfig.NetworkConfig"},
 		Stub: []string{"beacon node: assignments = pure function of (run salt, epoch/period, dependent-root version, requested indices); per-family armed failure / latency / hung call; head events injected by the driver",
 			"validator controller: active index set toggled by the driver + indices-change channel", "execution client (unused)", "ExecuteDuty callback = recorder (role, validator, slot, fake timestamp)", "zap nop logger"},
-		Rule: "start 2-4 epochs before a sync-committee period boundary, run 3-6 epochs; steps adv(ms)/head(mode none|current|previous|silent)/idx/fail(fam)/slow(fam,ms,hung) injected one at a time at boundary±1ms or inside slots; non-trivial = >=64 slots simulated, >=3 head/indices events delivered, >=20 dispatches; distinct = hash of sequence of (op, epoch/slot-in-epoch, active set, in-flight fetches, armed faults, dispatches during the step)",
+		Rule: "start 2-4 epochs before a sync-committee period boundary, run 3-6 epochs; steps adv(ms)/head(mode none|current|previous|silent)/idx(toggle)/idxset(mask, 0 = empty active set)/fail(fam)/slow(fam,ms,hung) injected one at a time at boundary±1ms or inside slots; non-trivial = >=64 slots simulated, >=3 head/indices events delivered, >=20 dispatches; distinct = hash of sequence of (op, epoch/slot-in-epoch, active set, in-flight fetches, armed faults, dispatches during the step)",
 		Assumptions: []string{"one external event in flight at a time; while a handler is inside a beacon call at most one event is queued and only if the call returns before the next tick (select with two ready cases is not seedable)",
 			"a reorg notice is taken to invalidate attester(e+1)/proposer(e) of the changed dependent root and, leniently, the not-yet-started next sync period; an indices change invalidates every epoch and period",
 			"a beacon call that ignores its deadline blocks its handler: ticks passed meanwhile are MAY, and an attester duty dispatched late (within one epoch) after such a call is MAY",
